@@ -310,6 +310,12 @@ func (s *Stream) WriteSCTP(payload []byte, ppi PayloadProtocolIdentifier) (int, 
 		return 0, ErrStreamClosed
 	}
 
+	// A DATA chunk cannot carry zero bytes of user data: there is nothing to
+	// send, and no sequence number (SSN / MID) may be consumed for it.
+	if len(payload) == 0 {
+		return 0, nil
+	}
+
 	// the send could fail if the association is blocked for writing (timeout), it will left a hole
 	// in the stream sequence number space, so we need to lock the write to avoid concurrent send and decrement
 	// the sequence number in case of failure
